@@ -334,7 +334,7 @@ Proof.
   - discriminate.
   - destruct (nth_scope st k) as [sid|]; [|keep_tac Keep Hf Hm Hp].
     pose proof (krel_scope_cancel st sid) as K. eapply (sfw_mk st _ _ K W); try reflexivity.
-    cbn [frames set_md]. rewrite (kr_frames _ _ K). exact Hf.
+    cbn [frames set_md emit set_trace]. rewrite (kr_frames _ _ K). exact Hf.
   - destruct (nth_scope st k) as [sid|]; [|keep_tac Keep Hf Hm Hp].
     pose proof (krel_scope_reschedule st sid (match d with Some d0 => Some (time st + d0) | None => None end)) as K.
     eapply (sfw_mk st _ _ K W); try reflexivity.
